@@ -4,7 +4,7 @@ session's requests through that ONE transport over an httpx.MockTransport and re
 stdin : JSON list of jobs {"id", "cfg"} - cfg is TransportCore!Concrete(sc):
         defaults / params / cookies : [[name, value], ...] (empty list => argument not passed / None),
         requests : [[[name, value], ...], ...] per-request headers of each request of the session (empty => no headers=),
-        plugins : [{kind, loc, name, val, hdrs, refresh, rets, ...}], wrap, bearer ("" => not passed), body ("" => none);
+        plugins : [{kind, loc, name, val, hdrs, refresh, rets, ...}], tree (auth nesting, see build_auth), bearer ("" => not passed), body ("" => none);
         rets = what the refresh callback returns at its i-th call: a token, "<same>" (the token it was shown), "" or
         "<none>" (None)
 stdout: one JSON line per job {"id", "obs": [one per request {headers: [[raw, lower, value]], query: [[k, v]],
@@ -88,19 +88,34 @@ def build_plugin(p: dict, calls: list[str]):
 
 
 def build_auth(cfg: dict, calls: list[str]):
+    """cfg["tree"] is a token list over "(" ")" "*": a parenthesised group is a CompositeAuth of its members, "*" is the
+    next plug-in of cfg["plugins"]; [] = no auth=, ["*"] = the bare plug-in."""
     ps = [build_plugin(p, calls) for p in cfg["plugins"]]
-    w = cfg["wrap"]
-    if w == "none":
+    toks = list(cfg["tree"])
+    if not toks:
         return None
-    if w == "direct":
-        return ps[0]
-    if w in ("composite", "flat"):
-        return CompositeAuth(*ps)
-    if w == "nestR":
-        return CompositeAuth(ps[0], CompositeAuth(*ps[1:]))
-    if w == "nestL":
-        return CompositeAuth(CompositeAuth(*ps[:-1]), ps[-1])
-    raise ValueError(f"unknown wrap {w}")
+    nxt = [0]
+    pos = [0]
+
+    def parse():
+        t = toks[pos[0]]
+        pos[0] += 1
+        if t == "*":
+            p = ps[nxt[0]]
+            nxt[0] += 1
+            return p
+        if t != "(":
+            raise ValueError(f"bad auth tree {toks}")
+        members = []
+        while toks[pos[0]] != ")":
+            members.append(parse())
+        pos[0] += 1
+        return CompositeAuth(*members)
+
+    auth = parse()
+    if pos[0] != len(toks) or nxt[0] != len(ps):
+        raise ValueError(f"bad auth tree {toks}")
+    return auth
 
 
 def parse_cookie_header(values: list[str]) -> list[list[str]]:
